@@ -686,6 +686,11 @@ class adopt:
     def requires(c, self, payload, args, flavour, kwargs):
         return known_flavour(c, flavour)
 
+    def ghost_call(c, ctx, self, payload, args, flavour, kwargs):
+        # (read by accept's contract) the shutdown request as it stands when something is adopted
+        ctx.ghost.setdefault("c12_flag_when_adopting", []).append(z3.Select(ctx.field_array("_must_shutdown"), Z.Val.id(self.t)))
+    ghost_call = staticmethod(ghost_call)
+
     def writes(c, self, payload, args, flavour, kwargs):
         return [("all", f, lambda x: True) for f in HEAPS]
 
@@ -838,6 +843,13 @@ class meta_stop_iface:
         return [("all", f, lambda x: True) for f in HEAPS]
 
 
+def _request_withdrawn(c):
+    """ "after accept has ended in any way a runner can accept again": a shutdown request left over from the previous run is withdrawn BEFORE
+    the accept loop (which polls it) is adopted"""
+    flags = c.ctx.ghost.get("c12_flag_when_adopting", [])
+    return c.And(*[c.Not(Z.Val.b(f)) for f in flags]) if flags else False
+
+
 @contract(RUN + "service:ServiceRunner.accept", props=["C12", "C01"])
 class accept:
     """K6: resets the shutdown request, adopts the accept loop as a trio payload, then runs the meta runner: accept ends exactly
@@ -851,7 +863,10 @@ class accept:
 
     def ensures(c, self, result):
         le = c.view_term(z3.Select(c.ctx.rd(c.new_heap, "$ghost_loop_exc"), 0), TExc(), c.new_heap)
-        return {"returns-only-as-run-returns": c.Or(Z.is_none(le.t), le.isa("KeyboardInterrupt"))}
+        out = {"returns-only-as-run-returns": c.Or(Z.is_none(le.t), le.isa("KeyboardInterrupt"))}
+        if getattr(c, "mode", None) == "prove":
+            out["an-earlier-shutdown-request-is-withdrawn-before-the-accept-loop-is-adopted"] = _request_withdrawn(c)
+        return out
 
     def _as_run(c, self, exc):
         le = c.view_term(z3.Select(c.ctx.rd(c.new_heap, "$ghost_loop_exc"), 0), TExc(), c.new_heap)
